@@ -966,5 +966,24 @@ theorem java_eq_c_PM5_full_cascade_kissel (hk : KVecOk T Z 8) :
 end phelpers
 
 
+theorem e1000 (E : ℝ) : E / 1000.0 * 1000.0 = E := by norm_num
+theorem e1000_le (E : ℝ) : (E / 1000.0 ≤ 0) ↔ (E ≤ 0) := by
+  have h0 : (0 : ℝ) < 1000.0 := by norm_num
+  constructor
+  · intro h; by_contra hh; push_neg at hh; have := div_pos hh h0; linarith
+  · intro h; exact div_nonpos_of_nonpos_of_nonneg h h0.le
+
+section energy
+variable (T : Tables ℝ) (Z : Int) (hZ : inI32 Z) (E : ℝ) (s : Slot) (hs : s.isFull = false)
+include hZ hs
+theorem java_eq_c_CS_Energy (hN : inI32 (T.NE_Energy Z.toNat)) (h92 : Z > 92 → Z ≤ 120 → T.NE_Energy Z.toNat < 0) :
+    JRel (JGen.CS_Energy (JTables.ofC T) Z E) (Gen.CS_Energy T Z E s) s := by
+  rcases (jsplint_rel_vec (JTables.ofC T) (T.E_Energy_arr Z.toNat) (T.CS_Energy_arr Z.toNat) (T.CS_Energy_arr2 Z.toNat) (T.NE_Energy Z.toNat) hN
+    (Real.log E) s hs).cases with ⟨y, hc, hj⟩ | ⟨e, hc, hj⟩ | ⟨a, b, hc, hj⟩ | ⟨a, hc⟩ <;>
+  (jeq_start JGen.CS_Energy Gen.CS_Energy JGen.CS_Factory
+   simp only [e1000, e1000_le, zero_lit]
+   jeq_auto)
+end energy
+
 end C19
 end Xrl
